@@ -77,6 +77,7 @@ pub struct FlushInfo {
     pub generation: u32,
     pub waited: bool,
     pub send_ok: bool,
+    pub with_cb: bool,
 }
 
 #[derive(Clone, Debug)]
@@ -275,9 +276,11 @@ impl<'a> Exec<'a> {
 
     fn do_drop(&mut self) {
         if let Some(rl) = self.rl.take() {
+            // C14's precondition: the last flush covered every record and was acknowledged Ok
+            let clean = self.flushes.last().map(|f| f.generation == self.generation && f.nrec == self.records.len() && f.with_cb && core::acked(f.fid) == Some(true)).unwrap_or(false);
             core::ev(HEv::DropBegin { generation: self.generation });
             drop(rl);
-            core::ev(HEv::DropEnd { generation: self.generation });
+            core::ev(HEv::DropEnd { generation: self.generation, clean });
             core::sim().progress();
         }
     }
@@ -570,7 +573,16 @@ impl<'a> Exec<'a> {
                             steps.push((k + 1, m.clone()));
                         }
                     }
-                    let hit = steps.iter().rev().find(|(_, m)| m.st == st && self.cmp_read(&got, &m.all()).is_none() && *m != self.model).map(|(k, m)| (*k, m.clone()));
+                    let reads_ok = |m: &Model| -> bool {
+                        // under faults a read may fail, but what it returns must be right
+                        if got.iter().any(|g| g.is_err()) {
+                            let want = m.all();
+                            got.len() == want.len() && got.iter().zip(want.iter()).all(|(g, w)| g.as_ref().map(|g| g == w).unwrap_or(true))
+                        } else {
+                            self.cmp_read(&got, &m.all()).is_none()
+                        }
+                    };
+                    let hit = steps.iter().rev().find(|(_, m)| m.st == st && reads_ok(m) && *m != self.model).map(|(k, m)| (*k, m.clone()));
                     if let Some((k, m)) = hit {
                         let mut recs = recs;
                         recs.truncate(k);
@@ -626,7 +638,7 @@ impl<'a> Exec<'a> {
                 self.diverge(mine, "flush-call-failed", format!("flush returned {} in a fault-free run", norm_err(e)));
             }
         }
-        self.flushes.push(FlushInfo { fid, nrec, upto, t_req, generation: self.generation, waited: wait && with_cb, send_ok });
+        self.flushes.push(FlushInfo { fid, nrec, upto, t_req, generation: self.generation, waited: wait && with_cb, send_ok, with_cb });
         if wait && with_cb && send_ok {
             let a = core::wait_ack(fid);
             match a {
@@ -819,10 +831,8 @@ impl<'a> Exec<'a> {
         // every write flushed and acknowledged
         let acked = self.do_flush(true, true);
         if acked != Some(true) {
-            if !self.faulty {
-                self.abort("restart: final flush not acknowledged");
-            }
-            // under faults: still restart, but no equivalence is demanded beyond the crash oracle
+            // under faults nothing is promised about unacknowledged data: the run is not judged further
+            self.abort("restart: final flush not acknowledged");
         }
         core::drain_idle();
         if self.aborted.is_some() {
